@@ -280,6 +280,9 @@ func checkC09(e *core.Env) {
 		if !p.ran && badMD {
 			return
 		}
+		if !p.ran && d.IsInt64() && d.Int64() < int64(10*time.Millisecond) {
+			return // a server may refuse to dispatch a call whose time is (all but) up
+		}
 		if !p.ran {
 			e.Violate("server/valid-rejected", fmt.Sprintf("valid GRPC-Timeout %q: handler did not run (HTTP %d)", hv, code), hv)
 			return
